@@ -568,6 +568,45 @@ func c02Witness(name string, w *World) *History {
 			"olvm call: factory CREATEs a child at a funded address (endowment 7)", "olvm call: factory CREATE2s a child at a funded address (endowment 9)")
 		s.block([][]byte{txOLVM(e1, &f0, 3, "1", 100000, nil), txSend(u0, f1, oltAmt("5"), s.memo())}, "olvm transfer to the created contract", "native send to a contract")
 		s.empty(1)
+	case "victim_key_relabelled":
+		// a secp256k1-keyed funded account (address = hash160 of the compressed key) whose public key is public; then SEND / SENDPOOL /
+		// ADD_NETWORK_DELEGATE naming it as the source, in envelopes that carry ITS public key - unchanged and relabelled as every other
+		// key algorithm - with junk / empty signature bytes; the same for an ed25519 victim.  The victims sign nothing: nothing may move
+		sv := seedKeyAlg(77, keys.SECP256K1)
+		s.empty(2)
+		s.block([][]byte{txSend(u0, sv.Addr, oltAmt("5000000000000000000000"), s.memo())}, "fund the secp256k1 account")
+		s.block([][]byte{txSend(sv, u1.Addr, oltAmt("1000000000000000000"), s.memo())}, "the secp256k1 account sends (its public key is public now)")
+		forge := func(base []byte, vic Key, alg string, sig []byte) []byte {
+			stx := decodeSigned(base)
+			stx.Signatures = []action.Signature{{Signer: vic.Pub, Signed: sig}}
+			bz := encodeSigned(stx)
+			cur := vic.Pub.KeyType.String()
+			if alg != cur {
+				bz = []byte(strings.Replace(string(bz), `"keyType":"`+cur+`"`, `"keyType":"`+alg+`"`, 1))
+			}
+			return bz
+		}
+		for _, vic := range []Key{sv, u2} {
+			txs, ds := [][]byte{}, []string{}
+			for _, alg := range []string{"ed25519", "secp256k1", "btcecsecp", "ethsecp"} {
+				for si, sig := range [][]byte{bytes.Repeat([]byte{0x5a}, 64), {}} {
+					for ki, base := range [][]byte{txSend(vic, u0.Addr, oltAmt("7000000000000000000"), s.memo()), txSendPool(vic, "BountyPool", oltAmt("3000000000000000000"), s.memo()),
+						txDelegate(vic, oltAmt("2000000000000000000"), s.memo())} {
+						txs = append(txs, forge(base, vic, alg, sig))
+						ds = append(ds, fmt.Sprintf("forged %s of the %s victim: its public key as %s, signature %s", []string{"SEND", "SENDPOOL", "ADD_NETWORK_DELEGATE"}[ki], vic.Pub.KeyType.String(), alg, []string{"junk", "empty"}[si]))
+					}
+				}
+			}
+			for len(txs) > 0 {
+				n := 6
+				if n > len(txs) {
+					n = len(txs)
+				}
+				s.block(txs[:n], ds[:n]...)
+				txs, ds = txs[n:], ds[n:]
+			}
+		}
+		s.empty(1)
 	case "two_finalized_in_one_block":
 		full := scenarioHistory("govupdate", w)
 		s.h.Blocks, s.h.Descr = full.Blocks[:7], full.Descr[:7]
@@ -872,7 +911,7 @@ func c02Main(args []string) int {
 			}
 		}
 		world := [3]int{3, 5, 2}
-		for _, name := range []string{"proposal_fund_negative", "two_finalized_in_one_block", "withdraw_funds_negative", "withdraw_reward_negative", "olvm_foreign_from", "double_unstake", "self_stake_foreign_slot0", "refused_credit_then_spend", "reward_withdrawal_empty_pool", "reward_withdrawal_empty_pool_checktx", "bid_negative_amount", "olvm_sstore_refund", "eth_redeem_refund", "olvm_create_prefunded"} {
+		for _, name := range []string{"proposal_fund_negative", "two_finalized_in_one_block", "withdraw_funds_negative", "withdraw_reward_negative", "olvm_foreign_from", "double_unstake", "self_stake_foreign_slot0", "refused_credit_then_spend", "reward_withdrawal_empty_pool", "reward_withdrawal_empty_pool_checktx", "bid_negative_amount", "olvm_sstore_refund", "eth_redeem_refund", "olvm_create_prefunded", "victim_key_relabelled"} {
 			w := NewWorld(world[0], world[1], world[2])
 			c, p := c02RunHistoryG("witness_"+name, world, c02Witness(name, w), c02WitnessExodus[name], c02WitnessGenesis[name])
 			cases = append(cases, c)
